@@ -1233,7 +1233,13 @@ def defaultsJudge (reg : St) (v : DcView) : Option (String × String) :=
         spec.findSome? fun p =>
           let ent := entries.findSome? fun e => match e with | .mk .kv _ [k, .mk .object _ [.mk .list _ fs]] => (if keyText k == keyText p.key then some fs else none) | _ => none
           let got := ent.bind (optionValue · "default")
-          let isFn := p.isMethod || (match p.ty with | some t => (normCtors (ctorsOfType FUEL reg t)).contains (.named "Function") | none => false)
+          -- Vue (`resolvePropValue`): `if (opt.type !== Function && isFunction(default)) value = default(props) else value = default` —
+          -- a default is taken as the value itself ONLY when the prop's `type` is exactly `Function`; for every other `type`
+          -- (`[String, Function]`, `[Function, null]`, `null`) a function default is CALLED as a factory.  All occurrences of the key count.
+          let occ := spec.filter fun q => keyText q.key == keyText p.key
+          let isFn := normCtors (occ.foldl (fun acc q =>
+              ctorUnion acc (if q.isMethod then [Ctor.named "Function"] else match q.ty with | some t => ctorsOfType FUEL reg t | none => [.anyValue])) [])
+            == [.named "Function"]
           let want := (ds.find? (fun x => x.1 == specKeyName p.key)).map fun x => expectedDefault isFn x.2
           match want, got with
           | none, none => none
@@ -1288,7 +1294,7 @@ where
     match w with
     | .mk (.other "shorthand") _ [.mk .ident (n :: b :: _) _] => if isFn then nIdent n b else nArrow [] (nIdent n b)
     | .mk (.other "getter") _ [body] => if isFn then nCall (nArrow [] body) [] else nArrow [] body
-    | .mk (.other "method") _ [f] => f                       -- a method: the function itself
+    | .mk (.other "method") _ [f] => f                       -- a method: the function itself (Vue's own `withDefaults` idiom: for a prop that is not `Function` it IS the factory)
     | v => if isLit v || isFn then v else nArrow [] v
 
 def oracleTypes (prop : String) (o : Opts) (inN outN : Node) (diags : List String) : Verdict :=
